@@ -35,6 +35,10 @@ def tmpdir():
     return d
 
 
+class CallbackAbort(BaseException):
+    """What a progress callback of kind 'raise-base' raises: not an Exception subclass (like KeyboardInterrupt or CancelledError)."""
+
+
 class StubSigner(object):
     """Deterministic signer: the device model can tell which key signed which token."""
 
@@ -163,6 +167,9 @@ class Session(object):
             return ('watchdog', str(e))
         except vloop.Deadlock as e:
             return ('deadlock', str(e))
+        except CallbackAbort as e:
+            self.last_exc = e
+            return ('exc', 'CallbackAbort', '')
         except Exception as e:  # pylint: disable=broad-except
             self.last_exc = e
             return ('exc', type(e).__name__, str(e)[:300])
@@ -227,20 +234,21 @@ class Session(object):
             async def rest(d):
                 return [x async for x in g]
             return self.run(rest)
+        kwpath = kw.pop('_kwpath', False)         # pass the device path by keyword (device_path=...)
         if name == 'list':
-            r = self.run(lambda d: d.list(args[0], **kw))
+            r = self.run((lambda d: d.list(device_path=args[0], **kw)) if kwpath else (lambda d: d.list(args[0], **kw)))
             if r[0] == 'ok':
                 r = ('ok', [tuple(x) for x in r[1]])
             return r
         if name == 'stat':
-            r = self.run(lambda d: d.stat(args[0], **kw))
+            r = self.run((lambda d: d.stat(device_path=args[0], **kw)) if kwpath else (lambda d: d.stat(args[0], **kw)))
             if r[0] == 'ok':
                 r = ('ok', tuple(r[1]))
             return r
         if name == 'pull':
-            return self._pull(args[0], args[1] if len(args) > 1 else 'bytesio', kw)
+            return self._pull(args[0], args[1] if len(args) > 1 else 'bytesio', dict(kw, _kwpath=kwpath))
         if name == 'push':
-            return self._push(args[0], args[1], kw)
+            return self._push(args[0], args[1], dict(kw, _kwpath=kwpath))
         raise HarnessError('unknown op %r' % (op,))
 
     def _callback(self, kind):
@@ -256,6 +264,8 @@ class Session(object):
             log.append((path, n, total))
             if kind == 'raise':
                 raise RuntimeError('callback failure')
+            if kind == 'raise-base':
+                raise CallbackAbort()
             if kind == 'reenter':                  # a callback that queries the device (another sync transaction) while the transfer is running
                 nested.append(tuple(dev.stat('/f')))
 
@@ -263,12 +273,15 @@ class Session(object):
             log.append((path, n, total))
             if kind == 'raise':
                 raise RuntimeError('callback failure')
+            if kind == 'raise-base':
+                raise CallbackAbort()
             if kind == 'reenter':
                 nested.append(tuple(await dev.stat('/f')))
         return cb if sync else acb
 
     def _pull(self, device_path, dest, kw):
         kw = dict(kw)
+        kwpath = kw.pop('_kwpath', False)
         cbk = kw.pop('cb', None)
         if cbk:
             kw['progress_callback'] = self._callback(cbk)
@@ -288,7 +301,7 @@ class Session(object):
             self.pulled = bio.getvalue()
         elif dest == 'bytesio':
             bio = io.BytesIO()
-            r = self.run(lambda d: d.pull(device_path, bio, **kw))
+            r = self.run((lambda d: d.pull(device_path=device_path, local_path=bio, **kw)) if kwpath else (lambda d: d.pull(device_path, bio, **kw)))
             self.pulled = bio.getvalue()
         elif dest == 'newdir':
             # a destination whose parent directories do not exist: a refused pull must not create them either
@@ -316,6 +329,17 @@ class Session(object):
         return r
 
     def _push(self, src, device_path, kw):
+        kw = dict(kw)
+        if kw.pop('_kwpath', False) and src[0] == 'bytes':
+            bio = io.BytesIO(src[1])
+            kw2 = dict(kw)
+            cbk2 = kw2.pop('cb', None)
+            if cbk2:
+                kw2['progress_callback'] = self._callback(cbk2)
+            return self.run(lambda d: d.push(bio, device_path=device_path, **kw2))
+        return self._push2(src, device_path, kw)
+
+    def _push2(self, src, device_path, kw):
         """src: ('bytes', data) -> BytesIO; ('file', data) -> a real file; ('dir', {name: data}, cwd_elsewhere)."""
         kw = dict(kw)
         cbk = kw.pop('cb', None)
